@@ -35,7 +35,7 @@ def build(ctx):
     if rc != 0:
         ctx.broken.append(("correspondence", "shroud-run-cap", out[-1200:]))
         return None
-    srcs = ["driver.cpp", "cap.cpp", "wrapcap.cpp", "wrapObj.cpp", "wrapOther.cpp", "utilcap.cpp", "wrapalpha_Item.cpp", "wrapbeta_Item.cpp", "wrapcap_beta.cpp"]
+    srcs = ["driver.cpp", "cap.cpp", "wrapcap.cpp", "wrapObj.cpp", "wrapOther.cpp", "utilcap.cpp", "wrapalpha_Item.cpp", "wrapbeta_Item.cpp", "wrapcap_beta.cpp", "wrapStamp.cpp"]
     p = subprocess.run(["g++", "-std=c++11", "-g", "-O0", "-fsanitize=address", "-fno-omit-frame-pointer", "-I", d, "-o", "drv"] + srcs,
                        cwd=d, capture_output=True, text=True)
     if p.returncode != 0:
@@ -85,6 +85,9 @@ def capsule_table(ctx):
         for (label, c, st) in rows:
             for (fl, fn, n, typ, how) in st:
                 if n == 0:
+                    if how == "new":
+                        ctx.violation("failing-input", {"what": "a generated wrapper creates an object with new and stores release code 0 (nothing to release): the object can never be released",
+                                                        "input": {"library": label, "file": fl, "wrapper": fn, "pointer_type": typ}})
                     continue
                 ct, act = c.get(n, ("", "missing"))
                 bad = act == "missing" or (act != "other" and (ct != typ or (how == "new" and act != "delete") or
@@ -105,7 +108,7 @@ def gen_seq(rng, allow_bad):
         r = rng.random()
         live = [i for i, h in enumerate(hs) if not h["released"]]
         if r < 0.3 or not hs:
-            k = rng.choice([1, 1, 2, 3, 4, 5, 6, 7, 8, 9, 10, 10])
+            k = rng.choice([1, 1, 2, 3, 4, 5, 6, 7, 8, 9, 10, 10, 11, 11])
             mops.append("N:%d" % k)
             lines.append("new %d %d" % (k, rng.randint(0, 9)))
             hs.append({"kind": k, "owned": True, "released": False})
@@ -170,7 +173,8 @@ def build_py(ctx):
     y["options"] = {"wrap_python": True, "wrap_lua": False, "wrap_c": False, "wrap_fortran": False, "PY_array_arg": "list"}
     # (two classes of the same name in different namespaces do not compile in the Python wrapper: C05's finding; the Python runs
     #  do not use them)
-    y["declarations"] = [d for d in y["declarations"] if not str(d.get("decl", "")).startswith("namespace ")]
+    y["declarations"] = [d for d in y["declarations"] if not str(d.get("decl", "")).startswith("namespace ")
+                         and "currentStamp" not in str(d.get("decl", ""))]          # (class result by value: C05's finding)
     yaml.safe_dump(y, open(os.path.join(d, "cap.yaml"), "w"), sort_keys=False)
     od = os.path.join(d, "pyout")
     rc, out = corpus.run_shroud(os.path.join(d, "cap.yaml"), od)
